@@ -222,6 +222,9 @@ func goValue(form string, doc []byte) any {
 	switch form {
 	case "vchan":
 		return make(chan int)
+	case "vraw":
+		// a Go value that carries pre-encoded JSON: it must be validated like any other value
+		return json.RawMessage(append([]byte(nil), doc...))
 	}
 	var v any
 	if err := json.Unmarshal(doc, &v); err != nil {
@@ -856,7 +859,11 @@ func TestVerifRace(t *testing.T) {
 				case 0:
 					shared.MatchSnapshot(mt, fmt.Sprintf("value %d %d", g, i))
 				case 1:
-					shared.MatchJSON(mt, fmt.Sprintf(`{"g":%d,"i":%d}`, g, i))
+					if g%2 == 0 {
+						shared.MatchJSON(mt, map[string]any{"g": g, "i": i, "pad": strings.Repeat("x", 200)}, match.Custom("g", func(v any) (any, error) { return v, nil }))
+					} else {
+						shared.MatchJSON(mt, fmt.Sprintf(`{"g":%d,"i":%d}`, g, i))
+					}
 				case 2:
 					shared.MatchYAML(mt, fmt.Sprintf("g: %d\ni: %d\n", g, i))
 				case 3:
